@@ -7,6 +7,7 @@ import (
 	"fmt"
 	"io"
 	"math/rand"
+	"os"
 	"strings"
 
 	"github.com/gorilla/websocket"
@@ -45,7 +46,24 @@ func (s *scenario) tag(t string) {
 func (s *scenario) violate(f string, a ...interface{}) {
 	s.violations = append(s.violations, fmt.Sprintf(f, a...))
 }
+var knownSigs = func() map[string]bool {
+	m := map[string]bool{}
+	for _, k := range strings.Split(os.Getenv("VERIF_KNOWN"), ",") {
+		if k != "" {
+			m[k] = true
+		}
+	}
+	return m
+}()
+
+// knownHit records a failure of the property oracle that carries the signature of a finding. Only
+// signatures listed as `known:` in KNOWN_FINDINGS.txt (passed in VERIF_KNOWN) are reported as known
+// findings; any other one is an ordinary violation.
 func (s *scenario) knownHit(sig, detail string) {
+	if !knownSigs[sig] {
+		s.violate("%s [%s]", detail, sig)
+		return
+	}
 	if s.known == nil {
 		s.known = map[string]string{}
 	}
@@ -177,6 +195,17 @@ type wConn struct {
 	errSeen  bool
 	closeSnt bool
 	faulted  bool
+}
+
+// closeOnWire: has this connection already written a close frame (by whatever path)?
+func (wc *wConn) closeOnWire() bool {
+	frames, _, _ := rfcDecode(wc.t.wire)
+	for _, f := range frames {
+		if f.op == 8 {
+			return true
+		}
+	}
+	return false
 }
 
 type scriptedReader struct {
@@ -533,7 +562,7 @@ func (g *wGen) opWriteMessage(wc *wConn, t int, p []byte) {
 	}
 	if err == nil {
 		wc.sent = append(wc.sent, apiMsg{t, p})
-	} else if !wc.errSeen && !wc.faulted && !wc.closeSnt {
+	} else if !wc.errSeen && !wc.faulted && !wc.closeOnWire() {
 		// C01 "accepted": a data message of any size and a control message of at most 125 bytes are valid requests
 		if t == 1 || t == 2 {
 			g.sc.violate("%s: WriteMessage(%d, %d bytes) was refused: %v", wc.id, t, len(p), err)
@@ -598,7 +627,7 @@ func (g *wGen) opWriteControl(wc *wConn, t int, p []byte, d int) {
 		if t == 8 {
 			wc.closeSnt = true
 		}
-	} else if !wc.errSeen && !wc.faulted && !wc.closeSnt && (t == 8 || t == 9 || t == 10) && len(p) <= 125 && d >= 0 {
+	} else if !wc.errSeen && !wc.faulted && !wc.closeOnWire() && (t == 8 || t == 9 || t == 10) && len(p) <= 125 && d >= 0 {
 		g.sc.violate("%s: WriteControl(%d, %d bytes) was refused: %v", wc.id, t, len(p), err)
 	}
 	if err != nil && errName(err) != "writeTimeout" {
